@@ -194,7 +194,10 @@ class Ctx:
         self.notes = []
         self._nrep = 0
         kf = VERIF / 'known_findings.json'
-        self.findings = [f for f in json.loads(kf.read_text())['findings'] if f['property'] == prop] if kf.exists() else []
+        allf = list(json.loads(kf.read_text())['findings']) if kf.exists() else []
+        for extra in sorted((VERIF / 'known_findings.d').glob('*.json')):   # staging area, merged by hand
+            allf += json.loads(extra.read_text())['findings']
+        self.findings = [f for f in allf if f['property'] == prop]
 
     # ---- logging
     def log(self, *a):
